@@ -334,7 +334,7 @@ impl Property for C18 {
     fn budget(&self, tier: Tier) -> Budget {
         match tier {
             Tier::Quick => Budget { release: 2_400_000, dbg: 800_000, workers: 8 },
-            Tier::Thorough => Budget { release: 16_000_000, dbg: 4_000_000, workers: 16 },
+            Tier::Thorough => Budget { release: 80_000_000, dbg: 20_000_000, workers: 16 },
         }
     }
     fn assumptions(&self) -> Vec<String> {
